@@ -47,10 +47,41 @@ def generate(ck, tier):
     vlib.tlc_ok(res, "fifo budget 2")
     ck.add_tlc(res, "fifo/budget2 (pairs)")
     pairs = [s for s in sc.schedules_from(p2) if len(s) == 2]
-    return singles, pairs, res["finished"]
+    # a partially reliable channel next to the reliable one (abandonment, FORWARD-TSN): liveness of the
+    # reliable channel + single faults, FORWARD-TSN included
+    p3 = os.path.join(ck.dir, "sched_pr.ndjson")
+    res3 = sc.tlc_mc(ck, "fifo_pr", mode="fifo", budget=1, fair=True, chans="ChansPR", msgs="MsgsTwoCh3",
+                     init_a="{14}", init_b="{0}", win=3, sched_sink=p3, timeout=900)
+    vlib.tlc_ok(res3, "fifo rel+pr budget 1")
+    ck.add_tlc(res3, "fifo/rel+pr budget1 (liveness + single faults)")
+    mixed = sc.schedules_from(p3)
+    if tier == "thorough":
+        p4 = os.path.join(ck.dir, "sched_pr2.ndjson")
+        res4 = sc.tlc_mc(ck, "fifo_pr2", mode="fifo", budget=2, fair=True, chans="ChansPR", msgs="MsgsPR2",
+                         init_a="{14}", init_b="{0}", win=3, sched_sink=p4, timeout=2400)
+        vlib.tlc_ok(res4, "fifo rel+pr budget 2")
+        ck.add_tlc(res4, "fifo/rel+pr budget2 (liveness + pairs)")
+        mixed += [s for s in sc.schedules_from(p4) if len(s) == 2]
+    return singles, pairs, mixed, res["finished"]
 
 
-def build_scenarios(singles, pairs, tier):
+TSN_SPACES = [None, {"init_tsn_a": WRAP_A, "init_tsn_b": 7000}, {"init_tsn_a": 1000, "init_tsn_b": 500000},
+              {"init_tsn_a": 500000, "init_tsn_b": 1000}, {"init_tsn_a": WRAP_A, "init_tsn_b": WRAP_B}]
+
+
+def mixed_workload(rng, k):
+    """MsgsTwoCh3 of the model: a 2-fragment and a 1-fragment message on the partially reliable channel 2
+    around a message on the reliable ordered channel 1, then more reliable traffic and the phase-2 probes"""
+    chans = [sc.chan(1), sc.chan(2, mr=k % 2)]
+    m = [{"from": "A", "sid": 2, "len": sc.size_for(2, rng)}, {"from": "A", "sid": 1, "len": sc.size_for(1, rng)},
+         {"from": "A", "sid": 2, "len": sc.size_for(1, rng)}, {"from": "A", "sid": 1, "len": sc.size_for(2, rng)},
+         {"from": "B", "sid": 1, "len": sc.size_for(1, rng), "task": 1},
+         {"from": "A", "sid": 1, "len": sc.size_for(1, rng), "phase": 2},
+         {"from": "B", "sid": 1, "len": sc.size_for(1, rng), "phase": 2}]
+    return chans, m
+
+
+def build_scenarios(singles, pairs, mixed, tier):
     rng = random.Random(vlib.seed())
     scen = [sc.scenario("clean", [], [sc.chan(1)], sc.basic_workload(rng), idle_ms=60)]
     scen.append(sc.scenario("clean-wrap", [], [sc.chan(1)], sc.basic_workload(rng, both=True), idle_ms=60,
@@ -64,6 +95,9 @@ def build_scenarios(singles, pairs, tier):
         wrap = (i % 3 == 0)
         scen.append(sc.scenario(f"p{i:04d}", f, [sc.chan(1)], sc.basic_workload(rng, both=(i % 2 == 1)),
                                 cfg={"init_tsn_a": WRAP_A, "init_tsn_b": WRAP_B} if wrap else None))
+    for i, f in enumerate([[]] + mixed):
+        chans, msgs = mixed_workload(rng, i)
+        scen.append(sc.scenario(f"m{i:03d}", f, chans, msgs, cfg=TSN_SPACES[i % len(TSN_SPACES)]))
     return scen, len(chosen)
 
 
@@ -71,8 +105,8 @@ def run(tier):
     ck = vlib.Check(PID, tier)
     vlib.build_harness(["sctp"])
     design_checks(ck, tier)
-    singles, pairs, gen_finished = generate(ck, tier)
-    scen, npairs = build_scenarios(singles, pairs, tier)
+    singles, pairs, mixed, gen_finished = generate(ck, tier)
+    scen, npairs = build_scenarios(singles, pairs, mixed, tier)
     by_id = sc.run_scenarios(ck, scen, "main", nproc=8 if tier == "quick" else 12)
     bad, ext, nev, res = sc.validate(ck, PID, scen, by_id, "main")
     ck.add_tlc(res, "trace validation")
@@ -90,7 +124,8 @@ def run(tier):
     ck.cov["distinct_nontrivial"] = len(applied)
     ck.cov["rule"] = ("one recorded run of the two real endpoints per TLC-generated fault schedule (all single faults "
                       f"[{len(singles)}], each with random and wrap-around initial TSNs, and {npairs} of {len(pairs)} "
-                      "fault pairs), replayed by TLC through Trace_SctpAssoc with the C01 rules (PrefixDelivery on "
+                      "fault pairs; {len(mixed)} schedules of the reliable+partially-reliable model on a two-channel workload "
+                      "over five TSN-space layouts), replayed by TLC through Trace_SctpAssoc with the C01 rules (PrefixDelivery on "
                       "the application's recv stream, EventuallyDelivered after the fault phase); non-trivial = "
                       "distinct schedules of which at least one fault hit a packet")
     ck.cov["samples"] = [{"scenario": s["id"], "faults": s["faults"], "msgs": s["msgs"]} for s in scen[2:6]]
@@ -130,6 +165,14 @@ def selftest():
                     constraint="DevBound", timeout=300)
     ok1 = any("OpenOnce" in e for e in res["errors"])
     print("selftest: SetupOverwrite model violates OpenOnce:", ok1)
+    for dev, msgs, budget in (("AdvPointWrongSpace", "MsgsTwoCh3", 1), ("FwdPlainCompare", "MsgsTwoCh3", 1),
+                              ("FwdNotRetransmitted", "MsgsPR2", 2)):
+        r = sc.tlc_mc(ck, "dev_" + dev, mode="fifo", budget=budget, fair=True, chans="ChansPR", msgs=msgs, init_a="{14}",
+                      init_b="{0}", win=3, deviations='{"%s"}' % dev, invariants=[], properties=["EventuallyDelivered"],
+                      timeout=900)
+        okd = any("EventuallyDelivered" in e for e in r["errors"])
+        print(f"selftest: {dev} model violates EventuallyDelivered:", okd)
+        ok1 = ok1 and okd
     rng = random.Random(1)
     s = sc.scenario("clean", [], [sc.chan(1)], sc.basic_workload(rng))
     by = sc.run_scenarios(ck, [s], "selftest", nproc=1)
